@@ -632,6 +632,9 @@ def scalar_binop(op, x, y):
 PYOPS = {"Add": operator.add, "Sub": operator.sub, "Mult": operator.mul, "Div": operator.truediv, "FloorDiv": operator.floordiv,
          "Mod": operator.mod, "Pow": operator.pow, "BitAnd": operator.and_, "BitOr": operator.or_}
 def binop(op, a, b):
+    if op == "MatMult":
+        from .models import arrays as _A
+        return _A.dot(a, b)               # `a @ b` for the 1-D / 2-D shapes dot() supports
     if isinstance(a, SArr) or isinstance(b, SArr):
         sa = a.shape if isinstance(a, SArr) else (); sb = b.shape if isinstance(b, SArr) else ()
         sh = bshape(sa, sb)
